@@ -7,7 +7,10 @@ serialises them (calibrated against the spec's own bytes in the same run).  Adde
 levels 1-9, the repository's specimens, and legal extremes built in the block-sorted domain (900000-byte
 block with 18001 groups, 32767 selectors, randomised blocks beyond the first flipped byte).  (V) the real
 binary must exit 0 with exactly the specified plaintext; only the two documented exceptions may be
-rejected."""
+rejected.
+(M+G) spec/Imtf.tla, the decoder's sliding-lists inverse move-to-front, model-checked against the naive list and
+replayed through the real mtf_one() across pool rebuilds (no conforming file in the other legs is long enough
+in the general path to reach a rebuild: it takes 7936 front moves from positions >= 16)."""
 import random
 import vlib, sched, fmtsession, bzgen
 
@@ -17,6 +20,12 @@ LEVEL = "other"
 def run(rep, tier, replay):
     rng = random.Random(vlib.seed())
     exe = vlib.build_impl()
+    # (M+G) spec/Imtf.tla: the sliding-lists inverse move-to-front of decode.c (fast path, general path, rebuild of the
+    # pool) checked against the naive list for every call sequence (small constants) and, with the code's own constants,
+    # followed over call sequences long enough to force rebuilds and replayed through the real mtf_one()
+    import inproc, os
+    for why, beh in inproc.imtf_leg(rep, os.path.join(os.path.dirname(exe), "src"), tier):
+        rep.violation(why, dict(kind="inproc", cls="imtf-replay", harness="replay_imtf", stimulus=beh))
     bzgen.calibrate(rep, vlib.seed(), 6 if tier == "quick" else 20)
     items = fmtsession.spec_items("valid", 160 if tier == "quick" else 2000, vlib.seed())
     items += [it for it in fmtsession.specimen_items() if it.valid]
